@@ -557,6 +557,9 @@ func (c *Ctx) Enumerate(name string) *Part {
 		}
 	}
 	p.Distinct = len(outcomes)
+	if p.Transitions > 0 && p.States == 0 {
+		p.States = p.Distinct // model states are the distinct outcome keys of the enumeration
+	}
 	c.mu.Lock()
 	for k := range outcomes {
 		c.nontrivialKeys[name+"/"+k] = true
